@@ -142,15 +142,27 @@ def opt_partitions(mod, tier):
     """partitions that are run a second time in a child interpreter started with `-O -W error` (assert statements and
     `if __debug__:` blocks removed; every warning raised as an exception, as under pytest's filterwarnings=error): a library must
     behave the same there.  A module may name them (OPT_PARTITIONS(tier)); the default is every partition
-    in the thorough tier and, in the quick tier, every partition of a module that sets OPT_QUICK_ALL, else every third one."""
+    of a module that sets OPT_QUICK_ALL, else every third one (quick) / every second one (thorough)."""
     if getattr(mod, "NO_OPT_PASS", False):
         return []
     if hasattr(mod, "OPT_PARTITIONS"):
         return mod.OPT_PARTITIONS(tier)
     parts = mod.partitions(tier)
-    if tier != "quick" or getattr(mod, "OPT_QUICK_ALL", False):
+    if getattr(mod, "OPT_QUICK_ALL", False):
         return parts
-    return parts[::3]
+    # every third (quick) / second (thorough) partition of each KIND of partition (first element), so that no kind is left out
+    step = 3 if tier == "quick" else 2
+    groups = {}
+    for p_ in parts:
+        k = p_[0] if isinstance(p_, (list, tuple)) and p_ and isinstance(p_[0], str) else "-"
+        groups.setdefault(k, []).append(p_)
+    # (partitions whose first element is a class / method name form one-element groups: treat all singletons as one group)
+    singles = [g[0] for g in groups.values() if len(g) == 1]
+    chosen = singles[::step] if len(singles) > step else singles
+    for g in groups.values():
+        if len(g) > 1:
+            chosen += g[::step]
+    return chosen
 
 
 def _opt_worker(args):
